@@ -30,7 +30,7 @@ from . import vtkenc as V
 from .lib import clist, cnat, cz
 
 # model = pinned behaviour of /repo (False) or the repaired behaviour (True), per finding
-REPAIRED = {"F-C06a": False, "F-C06b": False, "F-C06c": False, "F-C06d": False, "F-C06e": False}
+REPAIRED = {"F-C06a": False, "F-C06b": True, "F-C06c": True, "F-C06d": True, "F-C06e": True}
 # experiments only (mutation / candidate-fix runs against a scratch copy): VERIF_REPAIRED=F-C06a,F-C06b switches entries on
 for _k in filter(None, os.environ.get("VERIF_REPAIRED", "").split(",")):
     if _k in REPAIRED:
